@@ -13,15 +13,15 @@ open Fcgi Fcgi.Req Fcgi.Str Fcgi.Async Fcgi.Run Fcgi.Spec Fcgi.Indep3 Fcgi.C12In
 abbrev XR (s : List RdAns) : Ext := ⟨s, [], []⟩
 abbrev appR (s : List RdAns) (t : Transport) : Transport := ext (XR s) t
 
-/-- `RS`-ordered view of `RdL` -/
-def RS (t' t : Transport) : Prop := RdL t t'
-theorem RS.refl (t : Transport) : RS t t := RdL.refl t
-theorem RS.trans {a b c : Transport} (h1 : RS a b) (h2 : RS b c) : RS a c := RdL.trans h2 h1
-theorem RS.of_eq {t' t : Transport} (h : t'.rd = t.rd) : RS t' t := RdL.of_eq h
+/-- what is left of the read script: `t'.rd` is a suffix of `t.rd` -/
+def RS (t' t : Transport) : Prop := t'.rd <:+ t.rd
+theorem RS.refl (t : Transport) : RS t t := List.suffix_refl _
+theorem RS.trans {a b c : Transport} (h1 : RS a b) (h2 : RS b c) : RS a c := List.IsSuffix.trans h1 h2
+theorem RS.of_eq {t' t : Transport} (h : t'.rd = t.rd) : RS t' t := by unfold RS; rw [h]; exact List.suffix_refl _
 
 theorem ne_upR {t' t : Transport} (h : t'.rd ≠ []) (hs : RS t' t) : t.rd ≠ [] := by
   intro h0
-  obtain ⟨p, hp⟩ := (show RdL t t' from hs).rd
+  obtain ⟨p, hp⟩ := hs
   rw [h0] at hp
   exact h (List.append_eq_nil_iff.1 hp).2
 
@@ -110,13 +110,13 @@ theorem pollOutput_appR (s : List RdAns) {r : AReq} {m : MutexSt} {t : Transport
       rw [outLoop_appR s _ _ _ ho hne1]
       cases o1 <;> (simp only at h ⊢; cases h; rfl)
 
-theorem inCont_rl {fuel : Nat} {r : AReq} {dest : Option Nat} {m : MutexSt} {t : Transport}
+theorem inCont_rs {fuel : Nat} {r : AReq} {dest : Option Nat} {m : MutexSt} {t : Transport}
     {r' : AReq} {m' : MutexSt} {t' : Transport} {res : IRes}
     (h : inCont fuel r dest m t = (r', m', t', res)) : RS t' t := by
   unfold inCont at h
   rcases hr : t.read r.sp.free with ⟨t1, x⟩
   rw [hr] at h
-  have h1 : RS t1 t := read_rl hr
+  have h1 : RS t1 t := (read_rl hr).rd
   cases x with
   | pending => simp only at h; cases h; exact h1
   | ready y =>
@@ -125,7 +125,7 @@ theorem inCont_rl {fuel : Nat} {r : AReq} {dest : Option Nat} {m : MutexSt} {t :
     | ok bs =>
       cases bs with
       | nil => simp only at h; cases h; exact h1
-      | cons b bs => simp only at h; exact RS.trans (inLoop_rl _ _ _ _ _ _ h) h1
+      | cons b bs => simp only at h; exact RS.trans (inLoop_rl _ _ _ _ _ _ h).rd h1
 
 theorem inLoop_appR (s : List RdAns) : ∀ (fuel : Nat) (r : AReq) (new : Bytes) (dest : Option Nat) (m : MutexSt)
     (t : Transport) {r' : AReq} {m' : MutexSt} {t' : Transport} {res : IRes},
@@ -151,7 +151,7 @@ theorem inLoop_appR (s : List RdAns) : ∀ (fuel : Nat) (r : AReq) (new : Bytes)
         rw [hpo] at h
         have hne1 : t1.rd ≠ [] := by
           cases o1 with
-          | ready => exact ne_upR hne (inCont_rl h)
+          | ready => exact ne_upR hne (inCont_rs h)
           | pending => simp only at h; cases h; exact hne
           | err e => simp only at h; cases h; exact hne
           | panic x => simp only at h; cases h; exact hne
@@ -188,7 +188,7 @@ theorem pollInput_appR (s : List RdAns) {r : AReq} {dest : Option Nat} {m : Mute
     rw [hpo] at h
     have hne1 : t1.rd ≠ [] := by
       cases o1 with
-      | ready => simp only at h; exact ne_upR hne ((inLoop_rl _ _ _ _ _ _ h))
+      | ready => simp only at h; exact ne_upR hne (inLoop_rl _ _ _ _ _ _ h).rd
       | pending => simp only at h; cases h; exact hne
       | err e => simp only at h; cases h; exact hne
       | panic x => simp only at h; cases h; exact hne
@@ -337,7 +337,7 @@ theorem boundaryLoop_appR (s : List RdAns) : ∀ (fuel : Nat) (sp : Str.Parser) 
   | zero => intro sp new t sp' t' res h _; simp only [boundaryLoop] at h ⊢; cases h; rfl
   | succ n ih =>
     intro sp new t sp' t' res h hne
-    have hrd : t.rd ≠ [] := ne_upR hne (boundaryLoop_rl _ _ _ _ h)
+    have hrd : t.rd ≠ [] := ne_upR hne (boundaryLoop_rl _ _ _ _ h).rd
     have cont : ∀ (sp0 : Str.Parser), boundaryLoop.cont sp0 t n = (sp', t', res) →
         boundaryLoop.cont sp0 (appR s t) n = (sp', appR s t', res) := by
       intro sp0 h
@@ -377,7 +377,7 @@ theorem closeBoundary_appR (s : List RdAns) {sp : Str.Parser} {resume : Bool} {t
     {sp' : Str.Parser} {t' : Transport} {res : ORes} (h : closeBoundary sp resume t = (sp', t', res))
     (hne : t'.rd ≠ []) :
     closeBoundary sp resume (appR s t) = (sp', appR s t', res) := by
-  have hrd : t.rd ≠ [] := ne_upR hne (closeBoundary_rl h)
+  have hrd : t.rd ≠ [] := ne_upR hne (closeBoundary_rl h).rd
   simp only [closeBoundary] at h ⊢
   cases resume with
   | true =>
@@ -506,7 +506,7 @@ theorem closeP4_appR (s : List RdAns) {r : AReq} {st : CloseSt} {m : MutexSt} {t
     rw [hw] at h
     have hne1 : t1.rd ≠ [] := by
       cases x with
-      | ready => simp only at h; exact ne_upR hne ((finishEnd_rl h))
+      | ready => simp only at h; exact ne_upR hne (finishEnd_rl h).rd
       | _ => simp only at h; cases h; exact hne
     rw [writeAllLoop_appR s _ _ _ hw hne1]
     cases x with
@@ -534,14 +534,14 @@ theorem closePoll_appR (s : List RdAns) {r : AReq} {st : CloseSt} {status : Exit
     · rw [h2] at h
       simp only at h
       subst h
-      have hne1 : t1.rd ≠ [] := ne_upR hne (closeP2_rl.2 h2)
+      have hne1 : t1.rd ≠ [] := ne_upR hne (closeP2_rl.2 h2).rd
       rw [closeP1_appR s r st m t (by rw [h1]; exact hne1), h1]
       simp only [mapX, mapMid]
       rw [closeP2_appR s _ _ _ _ (by rw [h2]; exact hne), h2]
       rfl
     · rw [h2] at h
       simp only at h
-      have hs12 : RS t2 t1 := closeP2_rl.1 h2
+      have hs12 : RS t2 t1 := (closeP2_rl.1 h2).rd
       rcases h3 : closeP3 r2 m2 t2 st2 status alive with x3 | ⟨r3, m3, t3, st3⟩
       · rw [h3] at h
         simp only at h
@@ -558,7 +558,7 @@ theorem closePoll_appR (s : List RdAns) {r : AReq} {st : CloseSt} {status : Exit
       · rw [h3] at h
         simp only at h
         have e3 : t3 = t2 := closeP3_le.1 h3
-        have hne3 : t3.rd ≠ [] := ne_upR hne ((closeP4_rl h))
+        have hne3 : t3.rd ≠ [] := ne_upR hne (closeP4_rl h).rd
         have hne2 : t2.rd ≠ [] := by rw [← e3]; exact hne3
         have hne1 : t1.rd ≠ [] := ne_upR hne2 hs12
         rw [closeP1_appR s r st m t (by rw [h1]; exact hne1), h1]
@@ -571,12 +571,12 @@ theorem closePoll_appR (s : List RdAns) {r : AReq} {st : CloseSt} {status : Exit
 
 abbrev appER (s : List RdAns) (e : Run.Env) : Run.Env := extE (XR s) e
 
-theorem fail_rl' {n : Nat} {p : Bool} {r1 r' : AReq} {ha hb h' : HState} {e1 e' : Run.Env} {res1 res : HRes}
+theorem fail_rs {n : Nat} {p : Bool} {r1 r' : AReq} {ha hb h' : HState} {e1 e' : Run.Env} {res1 res : HRes}
     (hx : (if p = true then (r1, ha, e1, res1) else handlerPoll n r1 hb e1) = (r', h', e', res)) :
     RS e'.tr e1.tr := by
   split at hx
   · cases hx; exact RS.refl _
-  · exact handlerPoll_rl _ _ _ _ hx
+  · exact (handlerPoll_rl _ _ _ _ hx).rd
 
 theorem handlerPoll_appR (s : List RdAns) : ∀ (fuel : Nat) (r : AReq) (h : HState) (e : Run.Env)
     {r' : AReq} {h' : HState} {e' : Run.Env} {res : HRes},
@@ -628,8 +628,8 @@ theorem handlerPoll_appR (s : List RdAns) : ∀ (fuel : Nat) (r : AReq) (h : HSt
           cases x with
           | pending => simp only at hh; cases hh; exact hne
           | panic z => simp only at hh; cases hh; exact hne
-          | ready a b => simp only at hh; exact ne_upR hne (handlerPoll_rl _ _ _ _ hh)
-          | err z => simp only at hh; exact ne_upR hne (fail_rl' hh)
+          | ready a b => simp only at hh; exact ne_upR hne (handlerPoll_rl _ _ _ _ hh).rd
+          | err z => simp only at hh; exact ne_upR hne (fail_rs hh)
         have hpa := pollInput_appR s hpi hne1
         rw [show (appER s e).mutex = e.mutex from rfl, show (appER s e).tr = appR s e.tr from rfl, hpa]
         cases x with
@@ -645,8 +645,8 @@ theorem handlerPoll_appR (s : List RdAns) : ∀ (fuel : Nat) (r : AReq) (h : HSt
           cases x with
           | pending => simp only at hh; cases hh; exact hne
           | panic z => simp only at hh; cases hh; exact hne
-          | ready a b => simp only at hh; exact ne_upR hne (handlerPoll_rl _ _ _ _ hh)
-          | err z => simp only at hh; exact ne_upR hne (fail_rl' hh)
+          | ready a b => simp only at hh; exact ne_upR hne (handlerPoll_rl _ _ _ _ hh).rd
+          | err z => simp only at hh; exact ne_upR hne (fail_rs hh)
         have hpa := pollInput_appR s hpi hne1
         rw [show (appER s e).mutex = e.mutex from rfl, show (appER s e).tr = appR s e.tr from rfl, hpa]
         cases x with
@@ -664,9 +664,9 @@ theorem handlerPoll_appR (s : List RdAns) : ∀ (fuel : Nat) (r : AReq) (h : HSt
           | panic z => simp only at hh; cases hh; exact hne
           | ready a b =>
             cases a with
-            | zero => simp only at hh; exact ne_upR hne (handlerPoll_rl _ _ _ _ hh)
-            | succ a => simp only at hh; exact ne_upR hne (handlerPoll_rl _ _ _ _ hh)
-          | err z => simp only at hh; exact ne_upR hne (fail_rl' hh)
+            | zero => simp only at hh; exact ne_upR hne (handlerPoll_rl _ _ _ _ hh).rd
+            | succ a => simp only at hh; exact ne_upR hne (handlerPoll_rl _ _ _ _ hh).rd
+          | err z => simp only at hh; exact ne_upR hne (fail_rs hh)
         have hpa := pollInput_appR s hpi hne1
         rw [show (appER s e).mutex = e.mutex from rfl, show (appER s e).tr = appR s e.tr from rfl, hpa]
         cases x with
@@ -685,8 +685,8 @@ theorem handlerPoll_appR (s : List RdAns) : ∀ (fuel : Nat) (r : AReq) (h : HSt
           cases x with
           | pending => simp only at hh; cases hh; exact hne
           | panic z => simp only at hh; cases hh; exact hne
-          | ready => simp only at hh; exact ne_upR hne (handlerPoll_rl _ _ _ _ hh)
-          | err z => simp only at hh; exact ne_upR hne (fail_rl' hh)
+          | ready => simp only at hh; exact ne_upR hne (handlerPoll_rl _ _ _ _ hh).rd
+          | err z => simp only at hh; exact ne_upR hne (fail_rs hh)
         have hpa := writeablePoll_appR s hpi hne1
         rw [show (appER s e).mutex = e.mutex from rfl, show (appER s e).tr = appR s e.tr from rfl, hpa]
         cases x with
@@ -731,9 +731,9 @@ theorem handlerPoll_appR (s : List RdAns) : ∀ (fuel : Nat) (r : AReq) (h : HSt
                 | panic z => simp only at hh; cases hh; exact hne
                 | ready k =>
                   cases k with
-                  | zero => simp only at hh; exact ne_upR hne (fail_rl' hh)
-                  | succ k => simp only at hh; exact ne_upR hne (handlerPoll_rl _ _ _ _ hh)
-                | err z => simp only at hh; exact ne_upR hne (fail_rl' hh)
+                  | zero => simp only at hh; exact ne_upR hne (fail_rs hh)
+                  | succ k => simp only at hh; exact ne_upR hne (handlerPoll_rl _ _ _ _ hh).rd
+                | err z => simp only at hh; exact ne_upR hne (fail_rs hh)
               have hpa := pollWrite_appR s hpw hne1
               rw [show (appER s e).mutex = e.mutex from rfl, show (appER s e).tr = appR s e.tr from rfl, hpa]
               cases x with
@@ -757,9 +757,9 @@ theorem handlerPoll_appR (s : List RdAns) : ∀ (fuel : Nat) (r : AReq) (h : HSt
                 | panic z => simp only at hh; cases hh; exact hne
                 | ready k =>
                   cases k with
-                  | zero => simp only at hh; exact ne_upR hne (fail_rl' hh)
-                  | succ k => simp only at hh; exact ne_upR hne (handlerPoll_rl _ _ _ _ hh)
-                | err z => simp only at hh; exact ne_upR hne (fail_rl' hh)
+                  | zero => simp only at hh; exact ne_upR hne (fail_rs hh)
+                  | succ k => simp only at hh; exact ne_upR hne (handlerPoll_rl _ _ _ _ hh).rd
+                | err z => simp only at hh; exact ne_upR hne (fail_rs hh)
               have hpa := pollWrite_appR s hpw hne1
               rw [show (appER s e).mutex = e.mutex from rfl, show (appER s e).tr = appR s e.tr from rfl, hpa]
               cases x with
@@ -776,7 +776,7 @@ abbrev appCR (s : List RdAns) (c : Conn) : Conn := extC (XR s) c
 /-- **one phase transition** -/
 theorem stepConn_appR (s : List RdAns) (c : Conn) (hne : (stepConn c).conn.env.tr.rd ≠ []) :
     stepConn (appCR s c) = mapStep (XR s) (stepConn c) := by
-  have hrd0 : c.env.tr.rd ≠ [] := ne_upR hne (stepConn_rl c)
+  have hrd0 : c.env.tr.rd ≠ [] := ne_upR hne (stepConn_rl c).rd
   obtain ⟨phase, env, scripts, stop⟩ := c
   cases phase with
   | finished => rfl
@@ -885,7 +885,7 @@ theorem pollConn_appR (s : List RdAns) : ∀ (fuel : Nat) (c : Conn), (pollConn 
     | next c1 =>
       rw [hst] at hne
       have hne' : (pollConn fuel c1).1.env.tr.rd ≠ [] := hne
-      have hne1 : c1.env.tr.rd ≠ [] := ne_upR hne' (pollConn_rl fuel c1)
+      have hne1 : c1.env.tr.rd ≠ [] := ne_upR hne' (pollConn_rl fuel c1).rd
       rw [stepConn_appR s c (by rw [hst]; exact hne1), hst]
       simp only [mapStep, Step.run]
       exact pollConn_appR s fuel c1 hne'
@@ -902,27 +902,26 @@ theorem runTask_appR (s : List RdAns) : ∀ (fuel : Nat) (c : Conn) (n : Nat) (s
     rcases hpc : pollConn (connFuel (prePoll c n sa)) (prePoll c n sa) with ⟨c1, r⟩
     rw [hpc] at hne
     have hsuf : RS (afterPoll fuel n sa (c1, r)).1.env.tr c1.env.tr := by
-      have h1 := runTask_rl (fuel + 1) c n sa
       cases r with
       | finished => exact RS.refl _
       | panic z => exact RS.refl _
       | pending =>
         simp only [afterPoll]
         split
-        · exact runTask_rl _ _ _ _
+        · exact (runTask_rl _ _ _ _).rd
         · have hrel := release_rd c1.env
           generalize c1.env.release = y at hrel
           obtain ⟨env, any⟩ := y
           simp only at hrel ⊢
           have h2 : RS env.tr c1.env.tr := RS.of_eq hrel
           split
-          · exact RS.trans (runTask_rl _ _ _ _) h2
+          · exact RS.trans (runTask_rl _ _ _ _).rd h2
           · cases sa with
             | none => exact h2
             | some k =>
               simp only
               split
-              · exact RS.trans (runTask_rl _ _ _ _) h2
+              · exact RS.trans (runTask_rl _ _ _ _).rd h2
               · exact h2
     have hne1 : c1.env.tr.rd ≠ [] := ne_upR hne hsuf
     have hpa := pollConn_appR s (connFuel (prePoll c n sa)) (prePoll c n sa) (by rw [hpc]; exact hne1)
@@ -984,7 +983,7 @@ theorem closedLoop_appR (s : List RdAns) (fuel : Nat) : ∀ (ws : List Bytes) (c
     by_cases hf : fin = "STALL"
     · rw [if_pos hf] at hne
       have hne1 : c1.env.tr.rd ≠ [] :=
-        ne_upR hne (RS.trans (closedLoop_rl fuel ws (feed c1 w) (n + 1000)) (RS.of_eq rfl))
+        ne_upR hne (RS.trans (closedLoop_rl fuel ws (feed c1 w) (n + 1000)).rd (RS.of_eq rfl))
       have h1 := runTask_appR s fuel c n none (by rw [hr]; exact hne1)
       rw [h1, hr]
       simp only [if_pos hf]
